@@ -116,6 +116,11 @@ def dispatchSd (sd : Option SdSession) (op : String) (args : List Sexp) : Option
       match sdOpen args with
       | (some s, out) => (some s, out)
       | (none, out) => (sd, out)
+  | "sd.pending", some s =>
+      -- replies already waiting in the transport's queue (scripted / stale replies), read before anything the target answers
+      match args.mapM Sexp.bytes? with
+      | none => (sd, "bad-args")
+      | some rs => (some { s with w := { s.w with net := { s.w.net with pending := rs.map some } } }, "ok")
   | "sd.drv", some s => (sd, "ok " ++ renderDrv s.w.drv)
   | "sd.read", some s => let (s', out) := sdRead s args; (some s', out)
   | "sd.write", some s => let (s', out) := sdWrite s args; (some s', out)
